@@ -21,9 +21,9 @@ META = {
                  'hand-written Gallina model + differential correspondence with the implementation and a docs-derived reference oracle',
     'design_ref': 'DESIGN.md section 4 C04',
     'theorems': ['C04_truthy_is_documented', 'C04_bool', 'C04_bool_v1', 'C04_round_half_even', 'C04_round_unique',
-                 'C04_int_of_str_shape', 'C04_scalar_ref_partial', 'C04_int_v0', 'C04_int_v1', 'C04_str',
-                 'C04_datetime_z_suffix', 'C04_datetime_numeric_utc', 'C04_datetime_numeric_v1_partial',
-                 'C04_datetime_numeric_v1_refuted', 'C04_datetime_env_numeric_string', 'C04_timedelta_dispatch',
+                 'C04_int_of_str_shape', 'C04_scalar_ref', 'C04_int_v0', 'C04_int_v1', 'C04_str',
+                 'C04_datetime_z_suffix', 'C04_datetime_numeric_utc', 'C04_datetime_numeric_v1',
+                 'C04_datetime_env_numeric_string', 'C04_timedelta_dispatch',
                  'C04_enum', 'C04_decimal', 'C04_everywhere', 'C04_everywhere_ref',
                  'C04_env_split', 'C04_env_split_dict', 'C04_env_tuple_refuted'],
     'tables': ['Truthy'],
@@ -480,7 +480,7 @@ ENV_FILLER = dict(FILLER, int='3', bool='yes', float='2.5', timedelta='90', **{'
 
 def rand_cases(r, tier):
     """random members of unbounded families"""
-    n = 12 if tier == 'quick' else 120
+    n = 12 if tier == 'quick' else 90
     out = {t: [] for t in SCALARS}
     for _ in range(n):
         z = r.choice([1, -1]) * r.getrandbits(r.choice([3, 10, 40, 70, 130]))
@@ -561,7 +561,7 @@ def contexts(r, t, v, tier):
         ('tupv.dict', ['tupv', ['dict', 'str', t]], [{'q': v}]),
     ]
     out = [('top', t, v)]
-    k = 2 if tier == 'quick' else 5
+    k = 2 if tier == 'quick' else 4
     out += r.sample(allc, k)
     return out
 
@@ -836,25 +836,8 @@ def compile_prelude(ctx, text):
 
 # ----------------------------------------------------------------------------------------------
 KNOWN = {
-    'F22-v1-timestamp-naive-local': 'v1: a numeric timestamp for a datetime field is loaded with fromtimestamp(x, None): naive, in the machine-local zone',
-    'F23-env-fixed-tuple-string': 'EnvWizard: a fixed-arity tuple field cannot be loaded from a string: the element count is checked against len() of the raw string',
+    'F36-env-fixed-tuple-string': 'EnvWizard: a fixed-arity tuple field cannot be loaded from a string: the element count is checked against len() of the raw string',
 }
-
-
-def has_numeric_datetime(ty, v):
-    """does the value put an int/float at a position annotated datetime?"""
-    if isinstance(ty, str):
-        return ty == 'datetime' and is_num(v)
-    k = ty[0]
-    if k == 'opt':
-        return v is not None and has_numeric_datetime(ty[1], v)
-    if k in ('list', 'tupv'):
-        return isinstance(v, list) and any(has_numeric_datetime(ty[1], x) for x in v)
-    if k == 'tup':
-        return isinstance(v, list) and any(has_numeric_datetime(t1, x) for t1, x in zip(ty[1], v))
-    if k == 'dict':
-        return isinstance(v, dict) and any(has_numeric_datetime(ty[2], x) for x in v.values())
-    return False
 
 
 def has_env_tuple_string(ty, v):
@@ -867,6 +850,8 @@ def has_env_tuple_string(ty, v):
     if isinstance(v, str):
         if k == 'tup':
             return True
+        if k == 'tupv' and v.lstrip()[:1] != '[' and len(v.split(',')) > len(v):
+            return True                 # same root cause: one parser per character of the raw string
         st = v.lstrip()
         if st[:1] in ('[', '{'):
             try:
@@ -887,15 +872,29 @@ def has_env_tuple_string(ty, v):
 
 
 def known_region(case, eng):
-    if eng == 'v1' and has_numeric_datetime(case['ty'], case['val']):
-        return 'F22-v1-timestamp-naive-local'
     if eng == 'env' and has_env_tuple_string(case['ty'], case['val']):
-        return 'F23-env-fixed-tuple-string'
+        return 'F36-env-fixed-tuple-string'
     return None
 
 
-def impl_str(o):
-    return 'O' + o['ok'] if 'ok' in o else 'E'
+_TAGS = {'S': 'str', 'Y': 'bytes', 'Pdt': 'datetime', 'Pd': 'date', 'Pt': 'time', 'Ptd': 'timedelta(days,s,us)',
+         'Pdec': 'Decimal', 'M': 'Enum.'}
+
+
+def pretty(code):
+    """readable form of an encoded outcome (hex payloads decoded)"""
+    def sub(m):
+        try:
+            txt = bytes.fromhex(m.group(2)).decode('utf-8', 'replace')
+        except ValueError:
+            return m.group(0)
+        return '%s(%r) ' % (_TAGS[m.group(1)], txt)
+    if code.startswith('E'):
+        return code
+    out = re.sub(r'I(-?[0-9]+);', r'int(\1) ', code)
+    out = re.sub(r'F([^;]*);', r'float(\1) ', out)
+    out = out.replace('B1', 'True ').replace('B0', 'False ').replace('N', 'None ')
+    return re.sub(r'(Pdec|Pdt|Ptd|Pd|Pt|S|Y|M)([0-9a-f]*);', sub, out).strip()
 
 
 def check_direct(case, eng, o):
@@ -905,13 +904,13 @@ def check_direct(case, eng, o):
         return None, 'undoc'
     if ref is REJECT:
         if 'ok' in o:
-            return 'accepted %s, the documentation says it is rejected' % o['ok'], 'reject'
+            return 'accepted %s, the documentation says it is rejected' % pretty(o['ok']), 'reject'
         return None, 'reject'
     want = enc(ref[1])
     if 'ok' not in o:
-        return 'raised %s (%s), documented result %s' % (o.get('err'), (o.get('msg') or '')[:80], want), 'ok'
+        return 'raised %s (%s), documented result %s' % (o.get('err'), (o.get('msg') or '')[:80].replace('\n', ' '), pretty(want)), 'ok'
     if o['ok'] != want:
-        return 'loaded %s, documented result %s' % (o['ok'], want), 'ok'
+        return 'loaded %s, documented result %s' % (pretty(o['ok']), pretty(want)), 'ok'
     return None, 'ok'
 
 
@@ -969,6 +968,8 @@ def evaluate(ctx, cases, impl, model, index, tz):
         if bad:
             if region and ctx.is_open_region(region):
                 ctx.hist('known_region', region)
+            elif len(ctx.violations) >= MAX_REPORTED:
+                ctx.hist('violations_not_written', eng)
             else:
                 ctx.violation('%s %s <- %s: %s' % (eng, json.dumps(c['ty']), json.dumps(c['val'])[:120], bad),
                               {'kind': 'case', 'case': c, 'engine': eng, 'tz': tz})
@@ -976,7 +977,11 @@ def evaluate(ctx, cases, impl, model, index, tz):
         if model is not None:
             ctx.traces_validated += 1
             d = model_vs_impl(model[pos], o, eng)
-            if d:
+            if d and region and ctx.finding(region) is not None and bad is None:
+                # the model is faithful to a listed defect; here the implementation behaves as documented
+                # (defect repaired): FINDING-RESOLVED is printed by replay_known, not a broken tie
+                ctx.hist('resolved_region', region)
+            elif d:
                 ctx.disagreements_checked += 1
                 n_tie += 1
                 if n_tie <= 6:
@@ -1061,8 +1066,7 @@ def unit_checks(ctx, cases):
 # ----------------------------------------------------------------------------------------------
 def replay_known(ctx):
     wit = [
-        ('F22-v1-timestamp-naive-local', {'tag': 'top', 'ty': 'datetime', 'val': 0, 'engines': ['v1']}, 'v1', 'America/New_York'),
-        ('F23-env-fixed-tuple-string', {'tag': 'env.tup', 'ty': ['tup', ['int', 'bool']], 'val': '1,yes', 'engines': ['env']}, 'env', 'UTC'),
+        ('F36-env-fixed-tuple-string', {'tag': 'env.tup', 'ty': ['tup', ['int', 'bool']], 'val': '1,yes', 'engines': ['env']}, 'env', 'UTC'),
     ]
     for fid, case, eng, tz in wit:
         if ctx.finding(fid) is None:
@@ -1073,22 +1077,40 @@ def replay_known(ctx):
         ctx.known_finding(fid, still_fails=bool(bad), what='%s [%s]' % (KNOWN[fid], bad) if bad else None)
 
 
+def has_number_leaf(v):
+    if isinstance(v, list):
+        return any(has_number_leaf(x) for x in v)
+    if isinstance(v, dict):
+        return any(has_number_leaf(x) for x in v.values())
+    return is_num(v)
+
+
+CHUNK = 2500          # cases per oracle table / model batch (lookups in the tables are linear)
+MAX_REPORTED = 20     # concrete violations written as replay files per run
+
+
 def run(ctx):
     replay_known(ctx)
     cases = gen_cases(ctx)
-    impl, model, index = run_batch(ctx, cases, 'UTC', 'utc')
-    evaluate(ctx, cases, impl, model, index, 'UTC')
+    first_impl = None
+    for k in range(0, len(cases), CHUNK):
+        chunk = cases[k:k + CHUNK]
+        impl, model, index = run_batch(ctx, chunk, 'UTC', 'utc%d' % (k // CHUNK))
+        evaluate(ctx, chunk, impl, model, index, 'UTC')
+        if first_impl is None:
+            first_impl = impl
     # numeric timestamps again under a non-UTC zone: aware results must not depend on the machine zone
-    ts_cases = [c for c in cases if (c['ty'] == 'datetime' or (isinstance(c['ty'], list) and 'datetime' in json.dumps(c['ty'])))
-                and not json.dumps(c['ty']).count('"date"')]
-    ts_cases = ts_cases[:120 if ctx.tier == 'quick' else 1200]
+    ts_cases = [c for c in cases if 'datetime' in json.dumps(c['ty']) and '"date"' not in json.dumps(c['ty'])]
+    # numeric timestamps first (v1 included: regression guard for the repaired F35), then ISO strings
+    ts_cases.sort(key=lambda c: not has_number_leaf(c['val']))
+    ts_cases = ts_cases[:150 if ctx.tier == 'quick' else 1200]
+    ctx.hist('non_utc_zone_cases', 'numeric=%d other=%d' % (sum(has_number_leaf(c['val']) for c in ts_cases),
+                                                           sum(not has_number_leaf(c['val']) for c in ts_cases)))
     impl2, model2, index2 = run_batch(ctx, ts_cases, 'America/New_York', 'nyc')
     evaluate(ctx, ts_cases, impl2, model2, index2, 'America/New_York')
     unit_checks(ctx, cases)
-    for c in cases[:3]:
-        ctx.sample({'case': c, 'impl': impl['cases'][cases.index(c)], 'ref': repr(ref_coerce(c['ty'], c['val'], 'v0'))[:200]})
-    mid = cases[len(cases) // 2]
-    ctx.sample({'case': mid, 'impl': impl['cases'][len(cases) // 2]})
+    for i in (0, 1, min(len(cases), CHUNK) // 2):
+        ctx.sample({'case': cases[i], 'impl': first_impl['cases'][i], 'ref_v0': repr(ref_coerce(cases[i]['ty'], cases[i]['val'], 'v0'))[:200]})
 
 
 def replay(ctx, obj):
